@@ -372,4 +372,7 @@ def adjoint_subs(adj_sum_op, adj_prod_op, out_adj, arg, subs):
     frozenset,
 )
 def adjoint_scatter(adj_sum_op, adj_prod_op, out_adj, op, subs, source, reduced_vars):
-    return ((source, out_adj(**dict(subs)).reduce(adj_sum_op, reduced_vars)),)
+    # The adjoint of the source is out_adj read at the scattered positions, as a
+    # function of the source's inputs (reduced_vars among them); whatever else it
+    # mentions is aggregated by the tape.
+    return ((source, out_adj(**dict(subs))),)
